@@ -92,7 +92,7 @@ CHECKS = {
    "DESIGN.md 6/C17"),
  "C16": ("proc", "exploration",
    "differential monitor between a live-updated and a freshly started real process + continuity monitor under traffic; completion observed through hook events",
-   "Per sequence a live pike process receives 2-6 random valid updates (32 mutation kinds incl. optional fields set and unset; half of the in-place writes are followed at once by an admin GET /config) through the real admin PUT /config or an in-place write of the file, each completion observed via the update.done hook, while a client keeps requesting an unchanged server (judged) and three more the server being reconfigured (not judged); a second process is started on the final configuration; a probe suite derived from that configuration is run against both and compared field by field (status, label, encoding, encoded and decoded bytes, headers, which origin saw which path, query and added headers), plus cache binding between servers, the retained hit of a key cached before the updates, and that a removed server stops listening. The unchanged server gets cacheable and uncacheable traffic and its upstream has a slow health endpoint. Thirteen directed sequences run every time: a server re-added inside the graceful close of its old listener followed by an unrelated update 11.5 s later (it must be listening then); a rewrite rule whose replacement changes while its pattern stays; an upstream's enableH2C set, unset and set again (the protocol the origin sees is compared); the last compress profile (a bestCompression override) removed so that the whole section disappears from the saved file; a client's kept-alive connection to a removed server must not be served as before; a configuration saved while the previous one (with an upstream whose health endpoint takes seconds) is still being applied; bestCompression override and removal; server removed and re-added at once; server switched to another cache; cache renamed; compress level set then unset; two servers removed by one update; two caches on one badger store of which one is removed (persisted entries of the survivor); restart-only cache settings changed.",
+   "Per sequence a live pike process receives 2-6 random valid updates (32 mutation kinds incl. optional fields set and unset; half of the in-place writes are followed at once by an admin GET /config) through the real admin PUT /config or an in-place write of the file, each completion observed via the update.done hook, while a client keeps requesting an unchanged server (judged) and three more the server being reconfigured (not judged); a second process is started on the final configuration; a probe suite derived from that configuration is run against both and compared field by field (status, label, encoding, encoded and decoded bytes, headers, which origin saw which path, query and added headers), plus cache binding between servers, the retained hit of a key cached before the updates, and that a removed server stops listening. The unchanged server gets cacheable and uncacheable traffic and its upstream has a slow health endpoint. Thirteen directed sequences run every time: a server re-added inside the graceful close of its old listener followed by an unrelated update 13 s later (it must be listening then); a rewrite rule whose replacement changes while its pattern stays; an upstream's enableH2C set, unset and set again (the protocol the origin sees is compared); the last compress profile (a bestCompression override) removed so that the whole section disappears from the saved file; a client's kept-alive connection to a removed server must not be served as before; a configuration saved while the previous one (with an upstream whose health endpoint takes seconds) is still being applied; bestCompression override and removal; server removed and re-added at once; server switched to another cache; cache renamed; compress level set then unset; two servers removed by one update; two caches on one badger store of which one is removed (persisted entries of the survivor); restart-only cache settings changed.",
    "restart-only settings are never changed; compressors are deterministic so equal levels give equal bytes",
    "DESIGN.md 6/C16"),
  "C19": ("inproc", "fault_enumeration",
